@@ -5,6 +5,7 @@ package c17
 import (
 	"context"
 	"fmt"
+	"runtime"
 	"runtime/debug"
 	"strings"
 	"time"
@@ -43,7 +44,7 @@ func init() {
 		ChildTimeout: func(tier string) time.Duration { return 15 * time.Minute },
 		MinEvals: func(tier string) int {
 			if tier == "thorough" {
-				return 60000
+				return 100000
 			}
 			return 3000
 		},
@@ -141,7 +142,7 @@ func jobs(seed uint64, thorough bool) []job {
 	docs := fixedDocs()
 	nGen := 2
 	if thorough {
-		nGen = 60
+		nGen = 100
 	}
 	docs = append(docs, genDocs(seed, nGen)...)
 	doEntries := []string{enDoConfig, enDoAdd}
@@ -215,7 +216,7 @@ func jobs(seed uint64, thorough bool) []job {
 	n = 0
 	per := 12
 	if thorough {
-		per = 80
+		per = 120
 	}
 	for di, d := range docs {
 		for ci, cfg := range [][]extSpec{cfg3, cfgSame3} {
@@ -235,7 +236,7 @@ func jobs(seed uint64, thorough bool) []job {
 	// mf: random multi-fault subsets
 	nm := 900
 	if thorough {
-		nm = 60000
+		nm = 150000
 	}
 	for k := 0; k < nm; k++ {
 		r := core.NewRNG(seed).Derive(core.HashString("C17/mf"), uint64(k))
@@ -307,6 +308,9 @@ type runner struct {
 }
 
 func run(c *core.Child) {
+	// one request at a time: the caller and the library's execution goroutine.
+	// More Ps only add GC/scheduler wake-ups on the tiny per-case heaps.
+	runtime.GOMAXPROCS(2)
 	r := &runner{c: c, bases: map[string]*baseline{}, reported: map[string]int{}}
 	for i, j := range jobs(c.Seed, !c.Quick()) {
 		if i%c.NBatches != c.Batch {
